@@ -277,7 +277,8 @@ class ConditionValueExpression(ParentChainMixin):
     value: SigmaType
 
 
-identifier = Word(alphanums + "_-")
+identifier_chars = alphanums + "_-"
+identifier = Word(identifier_chars)
 identifier.set_parse_action(ConditionIdentifier.from_parsed)
 
 quantifier = Keyword("1") | Keyword("any") | Keyword("all")
@@ -289,9 +290,9 @@ operand = selector | identifier
 condition = infix_notation(
     operand,
     [
-        ("not", 1, opAssoc.RIGHT, ConditionNOT.from_parsed),
-        ("and", 2, opAssoc.LEFT, ConditionAND.from_parsed),
-        ("or", 2, opAssoc.LEFT, ConditionOR.from_parsed),
+        (Keyword("not", ident_chars=identifier_chars), 1, opAssoc.RIGHT, ConditionNOT.from_parsed),
+        (Keyword("and", ident_chars=identifier_chars), 2, opAssoc.LEFT, ConditionAND.from_parsed),
+        (Keyword("or", ident_chars=identifier_chars), 2, opAssoc.LEFT, ConditionOR.from_parsed),
     ],
 )
 
